@@ -24,7 +24,9 @@ DEFAULT_SRC = os.environ.get("RP2SIM_SRC", "/repo/src")
 RUN_TIMEOUT = float(os.environ.get("RP2SIM_RUN_TIMEOUT", "60"))
 
 COMMON_HELPERS = ["soffice", "libreoffice", "localc", "xdg-open", "open", "less", "more", "git", "unzip", "zip", "file", "tput", "notify-send", "curl", "wget", "gpg",
-                  "pdftotext", "sensible-browser", "gnome-open", "xclip", "pbcopy", "sendmail", "lsb_release", "hostname"]
+                  "pdftotext", "sensible-browser", "gnome-open", "xclip", "pbcopy", "sendmail", "lsb_release", "hostname",
+                  "www-browser", "x-www-browser", "links", "elinks", "lynx", "w3m", "firefox", "chromium", "gvfs-open", "kde-open", "my-browser",
+                  "nano", "vi", "editor", "pager", "say", "paplay", "aplay", "espeak"]
 ENTRY = {c: "rp2.plugin.country.%s" % c for c in ("us", "jp", "es", "ie", "generic")}
 
 
@@ -274,6 +276,10 @@ def host_env(host, opts, w):
         env["USER"] = env["LOGNAME"] = env["USERNAME"] = host["user"]
     if host.get("hostname"):
         env["HOSTNAME"] = host["hostname"]
+    if host.get("desktop"):
+        # a desktop session: what makes the standard library (webbrowser, pydoc, getpass ...) and many helpers reach for GUI or console tools
+        env.update({"DISPLAY": ":0", "XDG_CURRENT_DESKTOP": "GNOME", "XDG_SESSION_TYPE": "x11", "BROWSER": os.path.join(w.bin, "my-browser") + " %s",
+                    "PAGER": "less", "EDITOR": "nano", "TERM": "xterm-256color"})
     if host.get("columns"):
         env["COLUMNS"] = host["columns"]
         env["LINES"] = "24"
